@@ -34,6 +34,13 @@ CHECKS = {
         "text": "Every cell of a bounded product (12 event classes, 7-10 paths, 10-13 pattern lists squared, regex lists, case/ignore flags, str/bytes) and random larger cells are dispatched through recording subclasses of the three handler classes; the recorded callback sequence must equal the reference verdict; filter_paths/match_any_paths are compared with the reference filter; identical include/exclude patterns must raise ValueError.",
         "note": "Trusted: the reference matcher in props/c15.py (cross-checked against PurePosixPath.match on every evaluated cell; a disagreement aborts the run as inconclusive). No backslash/colon/leading '//' in paths.",
     },
+    "C14": {
+        "engine": "pure",
+        "design_ref": "DESIGN.md §4 C14",
+        "technique": "property-based testing: exhaustive small real directory trees over a prefix-colliding name universe + Hypothesis trees, compared with an independent scandir enumeration",
+        "text": "Directory trees whose inner names repeat the destination's own path (relative and absolute spellings, str and bytes) are created on disk; both synthetic-event generators must yield exactly one correctly flavoured, synthetic event per descendant with dest = dest dir + rel and src = src dir + rel, parents first.",
+        "note": "Trusted: the scandir enumeration in props/c14.py. No symlinks; normalized src/dest.",
+    },
 }
 
 ALL = [f"C{i:02d}" for i in range(1, 21)]
